@@ -220,6 +220,10 @@ func cancelLike(v ssa.Value) bool {
 }
 
 func timerLike(v ssa.Value) bool {
+	// a channel of time.Time is a timer, a ticker or time.After, however it reached this function
+	if ch, ok := v.Type().Underlying().(*types.Chan); ok && isTimeTime(ch.Elem()) {
+		return true
+	}
 	s := TermOf(v, nil).String()
 	return strings.Contains(s, "time.After(") || strings.HasSuffix(s, ".C") || strings.Contains(s, "time.NewTimer") || strings.Contains(s, "tickChan") || strings.HasPrefix(s, "phi@")
 }
@@ -725,7 +729,20 @@ func (a *A) ruleRegisteredGoroutinesSpawned() int {
 	})
 	// the pipeline function: static callee invoked in Start's own go body
 	var pipeline *ssa.Function
-	for _, af := range start.AnonFuncs {
+	// the bodies of the goroutines Start spawns: closures, or named functions/methods started with go
+	var bodies []*ssa.Function
+	bodies = append(bodies, start.AnonFuncs...)
+	allInstrs(start, func(in ssa.Instruction) {
+		if g, ok := in.(*ssa.Go); ok {
+			if f := g.Call.StaticCallee(); f != nil && a.fnInModule(f) && f.Blocks != nil {
+				bodies = append(bodies, f)
+			}
+		}
+	})
+	for _, af := range bodies {
+		if af.Name() == "Process" {
+			pipeline = af
+		}
 		allInstrs(af, func(in ssa.Instruction) {
 			if cc := callCommon(in); cc != nil {
 				if f := cc.StaticCallee(); f != nil && a.fnInModule(f) && f.Name() == "Process" {
